@@ -13,7 +13,7 @@ import (
 func init() {
 	core.Register(&core.Property{
 		ID:          "C08",
-		Rule:        "byte strings fed to PHYPayload.UnmarshalBinary: (i) uniform random strings of every length 0..256; (ii) structure-aware mutations of valid frames of all 8 MTypes (truncate/extend by 1..3 bytes at every structural boundary, every FOptsLen nibble, FPort forced to 0, splices of two frames, 1-3 bit flips, every RFU-free MHDR value, every rejoin-type byte); (ii-b) valid and header-only frames decoded into one re-used PHYPayload value; (iii) the complete sweep of the 32 RFU-free MHDR values x 600 seeded bodies of 4..30 bytes around every length guard. Oracle: whenever the decoder accepts a string whose MHDR bits 4..2 are zero, MarshalBinary must succeed and return exactly that string, and decoding the output must give an equal frame. A run with fewer than 300 accepted inputs for any MType is inconclusive. Distinct = (MType, length class, FOptsLen, FPort kind, mutation kind, accepted?).",
+		Rule:        "byte strings fed to PHYPayload.UnmarshalBinary: (i) uniform random strings of every length 0..256; (ii) structure-aware mutations of valid frames of all 8 MTypes (truncate/extend by 1..3 bytes at every structural boundary, every FOptsLen nibble, FPort forced to 0, splices of two frames, 1-3 bit flips, every RFU-free MHDR value, every rejoin-type byte); (ii-b) valid and header-only frames decoded into one re-used PHYPayload value (which in one case of six has just received a frame with reserved MHDR bits set); (iii) the complete sweep of the 32 RFU-free MHDR values x 600 seeded bodies of 4..30 bytes around every length guard. Oracle: whenever the decoder accepts a string whose MHDR bits 4..2 are zero, MarshalBinary must succeed and return exactly that string, and decoding the output must give an equal frame. A run with fewer than 300 accepted inputs for any MType is inconclusive. Distinct = (MType, length class, FOptsLen, FPort kind, mutation kind, accepted?).",
 		Assumptions: []string{"frames with MHDR RFU bits (4..2) set are outside the property (the decoder drops those bits by design, see C05 finding)"},
 		MinEvals:    1000,
 		Run:         runC08,
@@ -298,6 +298,13 @@ func runC08(c *core.Ctx) {
 			b[5] &= 0xf0
 		}
 		b[0] &^= 0x1c
+		if r.Chance(1, 6) {
+			// what the value received before need not have been in the domain: a frame with reserved MHDR
+			// bits set (its own acceptance is not judged here) must leave nothing behind for the next one
+			pre := append([]byte{}, b...)
+			pre[0] |= byte(1+r.Intn(7)) << 2
+			core.Guard(func() { _ = reused.UnmarshalBinary(pre) })
+		}
 		var err error
 		c.Eval(1)
 		if p, msg := core.Guard(func() { err = reused.UnmarshalBinary(append([]byte{}, b...)) }); p {
